@@ -159,6 +159,22 @@ def memo_case():
         report({"A": 1, "P": ["caller-2"]})
         if runs["n"] != 1:
             msgs.append(f"consumer of a dataset with pre-set P={preset!r} ran {runs['n']} times although only the overridden option P changed")
+    # C02/C07: one implementation overloaded under several aliases is ONE dataset: reached through two aliases with the same relevant options it runs once
+    runs = {"n": 0, "eff": 0}
+
+    @dataset(dispatch="MODE")
+    def base(a=Option("A")):
+        return ("base", a)
+
+    @base.overload(["x", "y"])
+    def impl(a=Option("A")):
+        runs["n"] += 1
+        return ("impl", a)
+    impl.add_effects(lambda v: runs.__setitem__("eff", runs["eff"] + 1)) if hasattr(impl, "add_effects") else None
+    base({"MODE": "x", "A": 1})
+    base({"MODE": "y", "A": 1})
+    if runs["n"] != 1:
+        msgs.append(f"an implementation overloaded under ['x', 'y'] ran {runs['n']} times for MODE=x then MODE=y with the same relevant options")
     # C01: the caller's own dictionary changed IN PLACE between two evaluations of one long-lived cached node / dataset
     from labrea import cached
     for make in (lambda: cached(Option("N") >> (lambda n: n * n)), lambda: dataset(lambda n=Option("N"): n * n)):
